@@ -81,8 +81,8 @@ def run_sync(b: Built, steps: List[dict]) -> List[Tuple[dict, list]]:
             elif st["op"] == "send":
                 interp.send(st["ev"])
             elif st["op"] == "batch":
-                b.ctl.emit("batch", st["ev"], st["ev2"])
-                interp.send_events([st["ev"], st["ev2"]])
+                b.ctl.emit("batch", st["evs"][0], st["evs"][-1])
+                interp.send_events(list(st["evs"]))
             elif st["op"] == "can":
                 r = interp.can(st["ev"])
                 b.ctl.emit("can", "T" if r else "F")
@@ -133,8 +133,8 @@ async def _run_async(b: Built, steps: List[dict]):
             elif st["op"] == "send":
                 await interp.send(st["ev"])
             elif st["op"] == "batch":
-                b.ctl.emit("batch", st["ev"], st["ev2"])
-                await interp.send_events([st["ev"], st["ev2"]])
+                b.ctl.emit("batch", st["evs"][0], st["evs"][-1])
+                await interp.send_events(list(st["evs"]))
             elif st["op"] == "can":
                 r = interp.can(st["ev"])
                 b.ctl.emit("can", "T" if r else "F")
